@@ -740,3 +740,48 @@ def filtered_collection(fv, name, at):
             return None
         return U(lp.iter), norm(conds[0][0], var), d.stmt
     return None
+
+
+def loop_as_comprehension(loop: ast.For, result: str):
+    """``for x in E: [tmp = f(x);] [if cond:] result.append(v)``  →  equivalent list
+    comprehension ``[v' for x in E if cond']`` with loop-local temporaries substituted.
+    Returns None when the loop body has another shape."""
+    import copy
+
+    if not isinstance(loop.target, ast.Name) or loop.orelse:
+        return None
+    env = {}
+    body = list(loop.body)
+
+    class Sub(ast.NodeTransformer):
+        def visit_Name(self, n):
+            if isinstance(n.ctx, ast.Load) and n.id in env:
+                return copy.deepcopy(env[n.id])
+            return n
+
+    conds = []
+    while body:
+        s = body[0]
+        if isinstance(s, ast.Assign) and len(s.targets) == 1 and isinstance(s.targets[0], ast.Name) and s.targets[0].id != result:
+            env[s.targets[0].id] = Sub().visit(copy.deepcopy(s.value))
+            body = body[1:]
+            continue
+        if isinstance(s, ast.If) and not s.orelse and len(body) == 1:
+            conds.append(Sub().visit(copy.deepcopy(s.test)))
+            body = list(s.body)
+            continue
+        if isinstance(s, ast.If) and len(s.body) == 1 and isinstance(s.body[0], ast.Continue) and not s.orelse:
+            conds.append(ast.UnaryOp(op=ast.Not(), operand=Sub().visit(copy.deepcopy(s.test))))
+            body = body[1:]
+            continue
+        break
+    if len(body) != 1 or not isinstance(body[0], ast.Expr) or not isinstance(body[0].value, ast.Call):
+        return None
+    c = body[0].value
+    if not (isinstance(c.func, ast.Attribute) and c.func.attr == "append" and isinstance(c.func.value, ast.Name) and c.func.value.id == result and len(c.args) == 1):
+        return None
+    elt = Sub().visit(copy.deepcopy(c.args[0]))
+    comp = ast.ListComp(elt=elt, generators=[ast.comprehension(target=loop.target, iter=loop.iter, ifs=conds, is_async=0)])
+    return ast.copy_location(comp, loop)
+
+
